@@ -79,7 +79,7 @@ def run_cases(args):
         ref = {s: sp.read_ids(Dataset(root), s) for s in ("train", "test")}
         ref_info = json.loads(Dataset(root)._dataset_info.model_dump_json())
         for kind, target in [("copy", base / "nested" / "deeper" / f"c{i}"), ("copy", base / f"ünï©ødé ☃ {i}"), ("copy", base / f"with blank {i}"),
-                             ("move", base / f"moved{i}"), ("relative", base / f"rel{i}"), ("dotdot", base / f"up {i}"), ("symlink", base / f"linked{i}")]:
+                             ("move", base / f"moved{i}"), ("relative", base / f"rel{i}"), ("tilde-name", base / "~archive 2024" / f"t{i}"), ("dotdot", base / f"up {i}"), ("symlink", base / f"linked{i}")]:
             target.parent.mkdir(parents=True, exist_ok=True)
             src = root
             if kind == "move":
@@ -92,6 +92,13 @@ def run_cases(args):
                     cwd = os.getcwd(); os.chdir(base)
                     try:
                         d2 = Dataset(Path(target.name))
+                    finally:
+                        os.chdir(cwd)
+                elif kind == "tilde-name":
+                    # under a directory whose name merely starts with `~` (not a user), addressed relative to the working directory
+                    cwd = os.getcwd(); os.chdir(base)
+                    try:
+                        d2 = Dataset(Path(target.parent.name) / target.name)
                     finally:
                         os.chdir(cwd)
                 elif kind == "dotdot":
